@@ -176,23 +176,34 @@ def leafInfo (kind : String) (P : List Nat) : Option SInfo :=
 
 /-! ### reference run-time shape functions (NumPy semantics) -/
 
-/-- `p` is a permutation of `0..n-1` -/
-def isPermOfRange (p : List Nat) (n : Nat) : Bool := p.length == n && (List.range n).all (fun i => p.contains i)
+/-- `s[a]` for every `a` of the list, `none` when one is out of range -/
+def gather : List Nat → Shape → Option Shape
+  | [], _ => some []
+  | a :: as, s =>
+    match s[a]?, gather as s with
+    | some x, some r => some (x :: r)
+    | _, _ => none
 
+/-- `np.transpose(a, axes).shape`: `axes = None` reverses, otherwise `axes` must be a permutation of `0..dim-1` -/
 def refTranspose (axes : Option (List Nat)) (s : Shape) : Option Shape :=
   match axes with
   | none => some s.reverse
-  | some p => if isPermOfRange p s.length then p.mapM (fun a => s[a]?) else none
+  | some p => if p.isPerm (List.range s.length) then gather p s else none
 
-/-- reshape target with at most one `-1` -/
+/-- replace the negative entries by `q` -/
+def fillNeg (q : Nat) (t : List Int) : List Nat := t.map (fun x => if x < 0 then q else x.toNat)
+
+/-- product of the non-negative entries -/
+def knownProd : List Int → Nat
+  | [] => 1
+  | x :: xs => if x < 0 then knownProd xs else x.toNat * knownProd xs
+
+/-- `np.reshape(a, t).shape`: at most one `-1`, which is inferred -/
 def refReshape (t : List Int) (s : Shape) : Option Shape :=
-  let neg := t.filter (· < 0)
-  if neg.length > 1 || neg.any (· ≠ -1) then none else
-  let known := prod ((t.filter (· ≥ 0)).map Int.toNat)
-  if neg.length == 1 then
-    if known == 0 || prod s % known != 0 then none
-    else some (t.map (fun x => if x < 0 then prod s / known else x.toNat))
-  else if known == prod s then some (t.map Int.toNat) else none
+  let cnt := t.countP (· < 0)
+  if cnt = 0 then (if knownProd t = prod s then some (fillNeg 0 t) else none)
+  else if cnt = 1 ∧ t.all (fun x => x ≥ -1) ∧ 0 < knownProd t ∧ prod s % knownProd t = 0
+    then some (fillNeg (prod s / knownProd t) t) else none
 
 def refFlatten (s : Shape) : Shape := [prod s]
 
@@ -213,30 +224,27 @@ def tileRev : List Nat → List Nat → List Nat
 
 def refTile (reps : List Nat) (s : Shape) : Shape := (tileRev s.reverse reps.reverse).reverse
 
-/-- insert extents 1 at the (sorted, distinct) positions `axes` of the RESULT -/
-def expandAt (axes : List Nat) : Nat → Nat → Shape → Shape
-  | _, 0, _ => []
-  | pos, n + 1, s =>
-    if axes.contains pos then 1 :: expandAt axes (pos + 1) n s
-    else match s with
-      | [] => []
-      | a :: as => a :: expandAt axes (pos + 1) n as
+def insertSorted (a : Nat) : List Nat → List Nat
+  | [] => [a]
+  | b :: bs => if a ≤ b then a :: b :: bs else b :: insertSorted a bs
 
+def sortAsc (l : List Nat) : List Nat := l.foldr insertSorted []
+
+def insertOne (l : Shape) (a : Nat) : Option Shape := if a ≤ l.length then some (l.insertIdx a 1) else none
+
+/-- `np.expand_dims(a, axes).shape`: distinct axes, inserted in ascending order (each must be a position of the
+    shape built so far — for distinct axes this is NumPy's `axis < a.ndim + len(axes)`) -/
 def refExpandDims (axes : List Nat) (s : Shape) : Option Shape :=
-  let n := s.length + axes.length
-  if axes.Nodup ∧ axes.all (· < n) then some (expandAt axes 0 n s) else none
+  if axes.Nodup then (sortAsc axes).foldlM insertOne s else none
 
 def refSqueeze (s : Shape) : Shape := s.filter (· ≠ 1)
 
-/-- remove (or set to 1) the axes listed -/
-def removeAt (axes : List Nat) (keepdims : Bool) : Nat → Shape → Shape
-  | _, [] => []
-  | pos, a :: as =>
-    if axes.contains pos then (if keepdims then 1 :: removeAt axes keepdims (pos + 1) as else removeAt axes keepdims (pos + 1) as)
-    else a :: removeAt axes keepdims (pos + 1) as
+def eraseOne (keepdims : Bool) (l : Shape) (a : Nat) : Option Shape :=
+  if a < l.length then some (if keepdims then l.set a 1 else l.eraseIdx a) else none
 
+/-- shape of `np.sum(a, axis=axes, keepdims=…)`: distinct axes of the array, removed (or set to 1) from the last to the first -/
 def refReduce (axes : List Nat) (keepdims : Bool) (s : Shape) : Option Shape :=
-  if axes.Nodup ∧ axes.all (· < s.length) then some (removeAt axes keepdims 0 s) else none
+  if axes.Nodup then (sortAsc axes).reverse.foldlM (eraseOne keepdims) s else none
 
 /-- NumPy broadcasting of two shapes, on reversed lists -/
 def bcastRev : List Nat → List Nat → Option (List Nat)
